@@ -29,7 +29,7 @@ def run(ctx):
         evaluations=s.get("faults", 0),
         floors={"small.files": 3, "small.single_bit_flips_enumerated": 10000, "seeded.files": 20, "intact.files": 200, "intact.empty_tables": 1,
                 "faults.tool.double-bit.index": 50, "faults.tool.triple-bit.first": 50, "faults.tool.burst<=32.last": 50, "faults.reader.single-bit.index": 300,
-                "detected.reader.get.process-stopped": 500, "detected.reader.get_range.process-stopped": 500, "detected.verify_tool.reports-failed": 500,
+                "detected.reader.get.process-stopped": 500, "detected.reader.get_range.process-stopped": 500, "detected.reader.iter+seek-past+seek-back.process-stopped": 300, "detected.verify_tool.reports-failed": 500,
                 "detected.verify_tool.abort-at-open": 50, "tool.command_line.intact-file-first": 300, "tool.command_line.intact-file-last": 100,
                 "faults.reader_option_calls.pattern1": 1000, "faults.reader_option_calls.pattern3": 1000},
         exhaustive=False,
